@@ -41,7 +41,7 @@ def claims(TRUST):
             " File ownership of the casblob readers: on every return path the file is either closed exactly once or owned by the returned reader (exposed an unclosed file on a seek error, fixed); GetTree's recursion tolerates stored Directory "
             "blobs with missing digests (exposed a nil dereference, fixed).",
             TRUST + "Covers the functions under contract only (listed in the evidence: disk layer, casblob, validators, tempfile, sha256verifier, config validation, auth interceptors, and the gRPC/HTTP handlers named in the other claims); functions marked nosafety "
-            "(CacheHandler, GetActionResult, fetchItem, the Write function literals) are excluded from the sweep; goroutine and connection lifetimes and termination are NOT decided.",
+            "(httpCache.CacheHandler and main.run only) are excluded from the sweep; goroutine and connection lifetimes and termination are NOT decided.",
             "contract-based deductive verification: automatically generated safety obligations for every instruction of every function under contract"),
         "C13": (
             "Deductive proof that the request handler behind each authentication layer is invoked only after the layer's check: gRPC basic-auth interceptors (unary and stream) call the handler only for the health method, for one of "
@@ -68,7 +68,7 @@ def claims(TRUST):
             "in the first iteration with exactly the parsed CAS digest, the 'non-zero write_offset' refusal is issued only after that probe answered 'absent', and payload is piped on only after both; the writer goroutine hands exactly the parsed "
             "digest and size to the cache in key space CAS; QueryWriteStatus makes one probe with the parsed digest and reports complete exactly when it is found, with the full size, and 0 / incomplete otherwise.",
             TRUST + "NOT decided: everything that depends on what travels over the channels between the two goroutines and the handler (committed_size of a successful Write, early return when the blob exists, failure on a changed resource name or "
-            "wrong byte count reaching the client, 'stores nothing' on failure) - channel contents and goroutine interleavings are not modelled, and the no-panic obligations of the two function literals are assumed (nosafety).",
+            "wrong byte count reaching the client, 'stores nothing' on failure) - channel contents and goroutine interleavings are not modelled.",
             "contract-based deductive verification: call-site assertions inside the function literals, ghost probe counter, functional postconditions of the parsers"),
         "C19": (
             "Deductive proof of the refusal half of the property for the effective configuration: whenever config.validateConfig returns nil, the set-ups the property lists are absent - dir set and max_size > 0, storage mode and zstd "
